@@ -46,6 +46,10 @@ func buildOverlay(repo string, roots []string) (map[string][]byte, map[string]st
 	return ov, src, nil
 }
 
+// loadErrFiles: file -> first error message of the last failed load (used to set aside harness files that no longer
+// type-check against a changed tree, e.g. because they touch an unexported field whose type changed)
+var loadErrFiles map[string]string
+
 type loaded struct {
 	prog *ssa.Program
 	pkgs []*ssa.Package
@@ -75,12 +79,18 @@ func load(repo string, overlay map[string][]byte) (*loaded, error) {
 		return nil, err
 	}
 	nerr := 0
+	loadErrFiles = map[string]string{}
 	packages.Visit(pkgs, nil, func(p *packages.Package) {
 		for _, e := range p.Errors {
 			if nerr < 30 {
 				fmt.Fprintf(os.Stderr, "load error: %s: %v\n", p.PkgPath, e)
 			}
 			nerr++
+			if i := strings.Index(e.Pos, ":"); i > 0 {
+				if _, ok := loadErrFiles[e.Pos[:i]]; !ok {
+					loadErrFiles[e.Pos[:i]] = e.Msg
+				}
+			}
 		}
 	})
 	if nerr > 0 {
